@@ -75,6 +75,19 @@ pub fn handmade() -> Vec<(&'static str, &'static str)> {
 
 pub fn pool(seed: u64, scratch: &std::path::Path, write_files: bool) -> Vec<Prog> {
     let mut v: Vec<Prog> = handmade().into_iter().map(|(n, t)| Prog { name: n.to_string(), kind: b'S', text: t.to_string(), dirs: vec![] }).collect();
+    // builds that end at one of the assembler's own resource limits (and their well-behaved twins): whatever
+    // such a build counted or cached must be gone when the next one starts
+    for (n, t) in [
+        ("limit-evaluation-steps", fw::equ_ladder(21, "ldi r16, low(a21)")),
+        ("limit-long-evaluation-then-undefined", fw::equ_ladder(18, "ldi r16, low(a18 + nowhere)")),
+        ("limit-long-evaluation-ok", fw::equ_ladder(18, "ldi r16, low(a18)\n.dw a10")),
+        ("limit-macro-nesting", ".macro again\nnop\nagain\n.endm\nagain\n".to_string()),
+        ("limit-macro-nesting-twin", ".macro again\nnop\n.endm\nagain\nagain\n".to_string()),
+        ("limit-line-complexity", format!("ldi r16, 1{}\n", "+1".repeat(700))),
+        ("limit-line-complexity-twin", format!("ldi r16, 1{}\n", "+1".repeat(40))),
+    ] {
+        v.push(Prog { name: n.to_string(), kind: b'S', text: t, dirs: vec![] });
+    }
     // generated programs: the generators number their names per program, so names collide across programs
     for i in 0..30u64 {
         let mut rng = Rng::for_case(seed, 0xC17, i);
@@ -228,7 +241,7 @@ pub fn one(args: &[String]) -> i32 {
 fn histories(ctx: &Ctx, progs: &[Prog], iso: &[u64], n: u64) {
     fw::par_for(n, 4, |h| {
         let mut rng = Rng::for_case(ctx.seed, 0xC17_A, h);
-        verif::enable(verif::BUILD);
+        fw::hook_enable(verif::BUILD);
         let len = 20 + rng.usize(81);
         let mut hist: Vec<usize> = vec![];
         let dev_fp = devices::table_fingerprint();
@@ -251,7 +264,7 @@ fn histories(ctx: &Ctx, progs: &[Prog], iso: &[u64], n: u64) {
         if devices::table_fingerprint() != dev_fp {
             ctx.violation("indep/history/device-table-changed", "the DEVICES table changed during a history", json!({"history": hist, "how": "history"}));
         }
-        verif::enable(0);
+        fw::hook_enable(0);
         ctx.count("history_builds", hist.len() as u64);
         ctx.distinct(fw::hash_str(&format!("{:?}", hist)));
     });
@@ -270,7 +283,7 @@ fn schedules(ctx: &Ctx, progs: &[Prog], iso: &[u64], rounds: u64, yield_now: boo
             for plan in &plans {
                 s.spawn(|| {
                     fw::install_quiet_panic_hook();
-                    verif::enable(verif::BUILD);
+                    fw::hook_enable(verif::BUILD);
                     verif::set_yield(yield_now);
                     barrier.wait();
                     let mut local = vec![];
@@ -290,7 +303,7 @@ fn schedules(ctx: &Ctx, progs: &[Prog], iso: &[u64], rounds: u64, yield_now: boo
                         }
                     }
                     verif::set_yield(false);
-                    verif::enable(0);
+                    fw::hook_enable(0);
                     intervals.lock().unwrap().extend(local);
                 });
             }
